@@ -2,7 +2,7 @@
 From Coq Require Import List ZArith NArith Bool Permutation Sorted.
 From Coq.Strings Require Import Byte.
 Import ListNotations.
-From SV Require Import Text G_flags C10_Model C10_Lemmas C10_Table C10_Reader C10_Extra.
+From SV Require Import Text G_flags C10_Model C10_Lemmas C10_Table C10_Reader C10_Extra C10_Total.
 Local Open Scope Z_scope.
 
 (* P0 single_loc_spec: _parse_single_loc on the text of one location. n -> [n-1, n), a..b -> [a-1, b), '<' and '>' -> BEYOND_LEFT /
@@ -100,15 +100,18 @@ Print Assumptions C10_read_render.
 (* what the view is, clause by clause: one record per abstract record in order; id = first word of ACCESSION ('' without one);
    header fields as metadata (REFERENCE dropped); residues upper-cased; one feature per feature-table entry with key as type, the
    meaning of its location ordered along the strand, the record id as seqid and its qualifiers as the dict the reader builds
-   (C10_quals_dict); a record without ORIGIN has neither residues nor a feature list *)
+   (C10_quals_dict); a record without ORIGIN or without a FEATURES line has neither residues nor a feature list, and without FEATURES
+   the ORIGIN block ends up in the header metadata (entry 'origin', one nested sub-field per residue line) *)
 Theorem C10_view_spec : forall excl rs,
   length (view excl rs) = length rs
   /\ Forall2 (fun r v =>
        rid v = match view_id r with Some i => i | None => [] end
-       /\ rhdr v = adel k_reference (view_hdr (ahdr r))
-       /\ (mem k_seq excl = false -> aorigin r = true -> rseq v = upper (aseq r))
-       /\ (aorigin r = false -> rseq v = [] /\ rfts v = None)
-       /\ (mem k_fts excl = false -> aorigin r = true ->
+       /\ (afeatures r = true -> rhdr v = adel k_reference (view_hdr (ahdr r)))
+       /\ (mem k_seq excl = false -> aorigin r = true -> afeatures r = true -> rseq v = upper (aseq r))
+       /\ (aorigin r = false \/ afeatures r = false -> rseq v = [] /\ rfts v = None)
+       /\ (aorigin r = true -> afeatures r = false ->
+           rhdr v = adel k_reference (aset k_origin (origin_hdr_val (render_origin (aseq r))) (view_hdr (ahdr r))))
+       /\ (mem k_fts excl = false -> aorigin r = true -> afeatures r = true ->
            exists fl, rfts v = Some fl /\
              Forall2 (fun f g => ftype g = akey f /\ flocs g = sort_locs (sem (aloc f)) /\ fseqid g = view_id r
                         /\ (mem k_translation excl = false -> fquals g = quals_dict (aquals f))) (afts r) fl))
@@ -163,7 +166,7 @@ Theorem C10_header_attrs :
                              end)
   /\ (forall V p, sub_val V p = HA (aset (lower (fst p)) (HS (join [sp] (snd p))) [(k_id, V)]))
   /\ (forall r, forallb wf_hfield (ahdr r) = true -> view_id r = id_of_hdr (view_hdr (ahdr r)))
-  /\ (forall excl r, rhdr (view_rec excl r) = adel k_reference (view_hdr (ahdr r))).
+  /\ (forall excl r, afeatures r = true -> rhdr (view_rec excl r) = adel k_reference (view_hdr (ahdr r))).
 Proof. exact header_attrs_spec. Qed.
 Print Assumptions C10_header_attrs.
 
@@ -215,6 +218,15 @@ Theorem C10_remote_rejected : forall s, has colon s = true ->
   parse_single s = RErr ValueError /\ (is_compound (strip s) = false -> parse_locs_str s = RErr ValueError).
 Proof. exact (fun s H => conj (remote_single s H) (remote_rejected s H)). Qed.
 Print Assumptions C10_remote_rejected.
+
+(* the whole reader is total on ARBITRARY text and every exclude tuple: the modelled iter_genbank / read_fts_genbank return a list of
+   records / features or stop with one of seven exception classes (doc_err: ValueError, IndexError, KeyError, TypeError, AttributeError,
+   AssertionError, UnboundLocalError) - never stuck, the fuel of the location parser never runs out *)
+Theorem C10_reader_total : forall excl text,
+  ((exists rs, iter_genbank excl text = ROk rs) \/ (exists k, iter_genbank excl text = RErr k /\ doc_err k))
+  /\ ((exists fl, read_fts_genbank excl text = ROk fl) \/ (exists k, read_fts_genbank excl text = RErr k /\ doc_err k)).
+Proof. exact (fun excl text => conj (reader_total excl text) (read_fts_total excl text)). Qed.
+Print Assumptions C10_reader_total.
 
 (* non-vacuity: a two-record file with a wrapped complement(join(1..5,<7..>10)), flags, '=' in a value and a multi-line
    translation is in the domain, reads to its view, and the view has the expected minus-strand locations *)
@@ -276,3 +288,11 @@ Example C10_witness_quotes :
   /\ wf_qual (QText (d "note") [unhex (bs "736179202222686922222222"%bs)]) = false
   /\ strip_char dq (unhex (bs "22736179202222686922222222"%bs)) = unhex (bs "7361792022226869"%bs).
 Proof. exact ex_quotes. Qed.
+(* a record without a FEATURES line is in the domain: no residues, no feature list, the ORIGIN block in the header metadata *)
+Example C10_witness_nofeatures :
+  wf_C10 [] ex_nofeatures = true
+  /\ iter_genbank [] (render_gb ex_nofeatures) = ROk (view [] ex_nofeatures)
+  /\ map (fun r => (rid r, rseq r, rfts r)) (view [] ex_nofeatures) = [(bs "AB000001"%bs, [], None)]
+  /\ map (fun r => aget k_origin (rhdr r)) (view [] ex_nofeatures)
+     = [Some (HA [(k_id, HS []); (bs "1 ac"%bs, HS (bs "acgtacgtac gt"%bs))])].
+Proof. exact ex_nofeat. Qed.
